@@ -63,6 +63,8 @@ STATEMENT_STATUS: Dict[str, str] = {
     "C08_text_line": "proved (definitional)", "C08_text_box": "proved (definitional)",
     "C08_text_group": "proved (definitional)", "C08_text_line_break": "proved",
     "C08_box_uniform": "proved (a box only holds lines of its own class)",
+    "C08_conserve_glyphs_figures": "proved (figures inside figures, any depth, all_texts on or off)",
+    "C08_conserve_glyphs_nested": "proved: multiset of glyphs over the WHOLE page tree incl. nested figures is conserved",
     "C08_single_root": "proved (group_textboxes ends with at most one object in the plane, for every heap comparison)",
 }
 
@@ -182,6 +184,15 @@ def stats(ctx: C.Ctx, case, page):
         ctx.branch("multi-line-box")
     if any(isinstance(e, LTAnno) and e.get_text() == " " for o in kids if isinstance(o, LTTextBox) for l in o for e in l):
         ctx.branch("space-inserted")
+    for o in kids:
+        if isinstance(o, LTTextBox) and len(o) > 1:
+            vert = isinstance(o, LTTextBoxVertical)
+            far = [F(l.x1) if vert else F(l.y1) for l in o]
+            near = [F(l.x0) if vert else F(l.y0) for l in o]
+            if vert:
+                ctx.branch("vertical-box:multi-line")
+            if sorted(range(len(far)), key=lambda i: (-far[i], i)) != sorted(range(len(near)), key=lambda i: (-near[i], i)):
+                ctx.branch("box:near-edge-order-differs:" + ("V" if vert else "H"))
     ctx.branch("boxes_flow:" + ("None" if case["la"].get("boxes_flow") is None else "num"))
     if any(it[0] == "f" for it in case["items"]):
         ctx.branch("figure:" + ("all_texts" if case["la"].get("all_texts") else "opaque"))
@@ -373,7 +384,7 @@ def run(ctx: C.Ctx) -> None:
         size = big if i % 50 == 49 else rng.choice([3, 6, 12, 25, 40])
         case = L.gen_case(rng, size, extreme=extreme)
         eval_case(ctx, case, batch, "extreme" if extreme else "layout")
-        if i % 10 == 0 and not extreme:
+        if i % 10 == 0 and not extreme and L.float_exact(case):
             float_cross_check(ctx, case)
         if len(batch.lines) >= 200:
             batch.flush()
